@@ -1,7 +1,7 @@
 """C13 - editing a model invalidates everything derived from the old model.
 
 Small-scope exhaustive histories: ALL operation sequences up to a length bound
-over an alphabet of 13 operations chosen to cross every cache boundary
+over an alphabet of 14 operations chosen to cross every cache boundary
 (LP objective <-> quadratic objective, flip sense, add linear / nonlinear
 constraint, add a list of constraints introducing a new variable, tighten /
 change a bound, solve with auto / SLSQP / trust-constr / linprog, read
@@ -81,7 +81,7 @@ BASES = {
         "bvar": "x[0]",
     },
 }
-OPS = ["min-lin", "min-quad", "max", "add-lin", "add-list", "add-nl", "tighten", "rebound", "solve-auto", "solve-SLSQP",
+OPS = ["min-lin", "min-quad", "max", "flip-same-object", "add-lin", "add-list", "add-nl", "tighten", "rebound", "solve-auto", "solve-SLSQP",
        "solve-trust-constr", "solve-linprog", "read"]
 OBS = {"solve-auto", "solve-SLSQP", "solve-trust-constr", "solve-linprog", "read"}
 
@@ -93,7 +93,7 @@ def info(tier):
         "exhaustive": True,
         "rule": "all %d operation sequences of length <= %d over %d operations x 3 base models (the last operation of each sequence "
         "ending in an observation is compared with the twin; prefixes are covered by the shorter sequences); the complete "
-        "family 'objective ; [constraint] ; solve m1 ; edit ; observe' (3x3x4x8x5 per base model; quick runs one third of it "
+        "family 'objective ; [constraint] ; solve m1 ; edit ; observe' (3x3x4x9x5 per base model; quick runs one third of it "
         "per seed); random histories of length <= 40 with every observation compared; distinct = distinct (base, sequence) pairs"
         % (n, MAXLEN[tier], len(OPS)),
         "required_cells": [f"base:{b}" for b in BASES] + [f"last:{o}" for o in OPS if o in OBS] + [f"op:{o}" for o in OPS],
@@ -124,6 +124,15 @@ def apply(op, M, P, b):
         M.objective, M.sense = node, ("max" if op == "max" else "min")
         e = b.S(node)
         (P.maximize if op == "max" else P.minimize)(e)
+    elif op == "flip-same-object":
+        # re-set the *same* objective expression object with the opposite sense (user: prob.maximize(f) after prob.minimize(f))
+        if P.objective is not None:
+            if M.sense == "min":
+                P.maximize(P.objective)
+                M.sense = "max"
+            else:
+                P.minimize(P.objective)
+                M.sense = "min"
     elif op == "add-lin":
         M.constraints.append(base["c_lin"])
         P.subject_to(b.rel(base["c_lin"]))
